@@ -415,3 +415,50 @@ def maybe_none_reaches(ctx, f, var, sink_ids):
         if p is not None:
             out.append((cfg.nodes[d].ast if d != cfg.entry else None, p))
     return out
+
+
+# ------------------------------------------------------------------ guard tables: the conditions a key action is taken under
+def dom_guard(ctx, f, nid):
+    """atoms of the branch conditions every path to CFG node nid takes; a test on a local flag with one definition is
+    expanded through that definition"""
+    from ..engine import dominating_edges, local_defs
+    from ..core.facts import atoms_of
+    cfg = cfg_of(f)
+    out = set()
+    for (_, c, t) in dominating_edges(cfg, nid):
+        out |= atoms_of(c, t)
+    exp = set()
+    for a in out:
+        if a[0] == "truth" and a[1].isidentifier():
+            ds = [d for d in local_defs(f, a[1]) if not isinstance(d, tuple)]
+            if len(ds) == 1:
+                exp |= atoms_of(ds[0], a[2])
+                continue
+        exp.add(a)
+    return exp
+
+
+def call_nodes(ctx, f, pred):
+    """[(node id, call)] of the calls in f that satisfy pred(call)"""
+    cfg = cfg_of(f)
+    return [(n.id, x) for n in cfg.nodes for x in cfg.node_walk(n.id) if isinstance(x, ast.Call) and pred(x)]
+
+
+def require_guard(ctx, rep, clause, f, construct, nids, required, why, node=None):
+    """every node of nids is dominated by atoms matching each (label, predicate) of `required`"""
+    if not nids:
+        raise AnchorError(f"{construct}: action not found in {f.short}")
+    missing = []
+    for nid in nids:
+        at = dom_guard(ctx, f, nid)
+        for label, pred in required:
+            if not any(pred(a) for a in at):
+                missing.append(label)
+    rep.put(not missing, clause, "guarded_by", construct, f, node, "guard: " + " and ".join(l for l, _ in required),
+            f"not taken exactly under `{' and '.join(sorted(set(missing)))}`: {why}")
+    return not missing
+
+
+def eq_atom(x, y, truth=True):
+    """predicate for the atom x == y (either order) with the given truth"""
+    return lambda a: a[0] == "eq" and a[3] is truth and {a[1].split(".")[-1] if False else a[1], a[2]} == {x, y}
